@@ -863,6 +863,11 @@ class Process(StateMachine, persistence.Savable, metaclass=ProcessStateMachineMe
     @super_check
     def on_finish(self, result: Any, successful: bool) -> None:
         """Entering the FINISHED state."""
+        if self.future().cancelled():
+            # Cancelling the future is a request to kill the process that has not been carried out yet
+            state_cls = self.get_states_map()[process_states.ProcessState.KILLED]
+            raise StateEntryFailed(state_cls(self, msg=MessageBuilder.kill('Killed by future being cancelled')))
+
         if successful:
             validation_error = self.spec().outputs.validate(self.outputs)
             if validation_error:
@@ -905,6 +910,11 @@ class Process(StateMachine, persistence.Savable, metaclass=ProcessStateMachineMe
             msg_txt = msg[MESSAGE_TEXT_KEY] or ''
 
         self.set_status(msg_txt)
+
+        # The kill may have been requested by cancelling the future, which is done in that case.  As in ``on_except``,
+        # replace it so that the outcome can be set instead of failing the transition.
+        if self.future().done():
+            self._future = persistence.SavableFuture(loop=self._loop)
         self.future().set_exception(exceptions.KilledError(msg_txt))
 
     @super_check
